@@ -105,7 +105,7 @@ var (
 	reSavepoint = regexp.MustCompile(`^SAVEPOINT (\S+)$`)
 	reRelease   = regexp.MustCompile(`^RELEASE SAVEPOINT (\S+)$`)
 	reRollback  = regexp.MustCompile(`^ROLLBACK TO SAVEPOINT (\S+)$`)
-	reAdv       = regexp.MustCompile(`(?i)^SELECT (pg_advisory_lock|pg_advisory_xact_lock|pg_advisory_unlock)\(hashtext\('([^']*)'\)\)$`)
+	reAdv       = regexp.MustCompile(`(?i)^SELECT (pg_advisory_lock|pg_advisory_xact_lock|pg_advisory_unlock)\((?:hashtext\('([^']*)'\)|(\d+))\)$`)
 	reUpdState  = regexp.MustCompile(`^UPDATE "_system"\."ledgers" AS "ledgers" SET state = '([^']*)' WHERE \(id = (\d+) and state = '([^']*)'\)$`)
 	reSetval    = regexp.MustCompile(`^select setval\(\s*'("[^"]*"\."[^"]*")',\s*\(\s*select max\(id\) from "([^"]*)"\.(\w+) where ledger = '([^']*)'\s*\)::bigint\s*\)$`)
 	reSelLedger = regexp.MustCompile(`^SELECT (.*) FROM "_system"\."ledgers" AS "ledgers" WHERE \(id = (\d+)\)$`)
@@ -154,6 +154,15 @@ func (c *conn) ExecContext(ctx context.Context, query string, args []driver.Name
 	}
 	if m := reAdv.FindStringSubmatch(q); m != nil {
 		key := m[2]
+		if m[3] != "" {
+			// integer key (storage/ledger/logs.go locks the ledger id before inserting a log)
+			key = "int:" + m[3]
+			if c.w.realSQL {
+				if err := c.driverYield(ctx, "sql:advisory-lock", "", lockStmtKinds); err != nil {
+					return nil, err
+				}
+			}
+		}
 		switch strings.ToLower(m[1]) {
 		case "pg_advisory_lock":
 			return execResult{}, c.w.runStmt(ctx, c, func() error { return c.sess.advLockStmt(key, false) })
@@ -225,6 +234,13 @@ func (c *conn) ExecContext(ctx context.Context, query string, args []driver.Name
 		})
 		return execResult{}, err
 	}
+	if c.w.realSQL {
+		res, err := c.sqlStatement(ctx, query)
+		if err != nil {
+			return nil, err
+		}
+		return execResult{n: res.affected}, nil
+	}
 	return nil, c.w.harnessErr("simpg: unrecognised statement: %q", q)
 }
 
@@ -263,7 +279,95 @@ func (c *conn) QueryContext(ctx context.Context, query string, args []driver.Nam
 		}
 		return &simRows{cols: []string{"result"}, data: [][]driver.Value{{nil}}}, nil
 	}
+	if c.w.realSQL {
+		res, err := c.sqlStatement(ctx, query)
+		if err != nil {
+			return nil, err
+		}
+		return res.rows(), nil
+	}
 	return nil, c.w.harnessErr("simpg: unrecognised query: %q", q)
+}
+
+// driverYield is a yield point inside a driver call (real-SQL mode: every data statement the real storage
+// code sends). It returns the error the statement must fail with, if a fault was injected.
+func (c *conn) driverYield(ctx context.Context, op, note string, kinds []FaultKind) error {
+	if f := c.w.parkInDriver(ctx, op, note, kinds); f != nil {
+		switch f.Kind {
+		case FShutdown:
+			c.sess.abandonStmt()
+			return errShutdown
+		case FStmtErr:
+			c.sess.failStmt()
+			return pgErr("53100", "could not extend file: No space left on device (injected)", "")
+		case FConnLost:
+			c.sess.Kill()
+			return errConnLost
+		case FDeadlock:
+			c.sess.failStmt()
+			return pgErr("40P01", "deadlock detected (injected)", "")
+		case FSerialization:
+			c.sess.failStmt()
+			return pgErr("40001", "could not serialize access (injected)", "")
+		}
+	}
+	if c.sess.dead || c.w.epochDead(c.epoch) {
+		return errSessionDead
+	}
+	if err := ctx.Err(); err != nil {
+		c.sess.abandonStmt()
+		return err
+	}
+	return nil
+}
+
+// sqlStatement: real-SQL mode. The statement text built by the real storage code is parsed, becomes a
+// yield point (scheduling decision, fault site), and is interpreted over simpg on this connection's session.
+func (c *conn) sqlStatement(ctx context.Context, query string) (*sqlResult, error) {
+	stmt, err := parseSQL(query)
+	if err != nil {
+		return nil, c.w.unsupportedSQL(err, query)
+	}
+	verb, table := describeStmt(stmt)
+	kinds := stmtKinds
+	if stmtTakesLocks(stmt) {
+		kinds = lockStmtKinds
+	}
+	if err := c.driverYield(ctx, "sql:"+verb+":"+table, "", kinds); err != nil {
+		return nil, err
+	}
+	task := taskKeyOf(ctx)
+	st := &stmtState{}
+	var res *sqlResult
+	err = c.w.runStmt(ctx, c, func() error {
+		var e error
+		res, e = c.execParsed(task, stmt, st)
+		return e
+	})
+	if err != nil {
+		var ue *errUnsupportedSQL
+		if errors.As(err, &ue) {
+			return nil, c.w.unsupportedSQL(err, query)
+		}
+		return nil, err
+	}
+	return res, nil
+}
+
+// unsupportedSQL: the statement is outside what the interpreter models. The run is reported as
+// inconclusive (never as a violation, never as infrastructure trouble); the statement itself fails like a
+// feature the server does not support.
+func (w *World) unsupportedSQL(err error, query string) error {
+	w.mu.Lock()
+	if w.sqlUnsupported == "" {
+		q := normSQL(query)
+		if len(q) > 300 {
+			q = q[:300] + "..."
+		}
+		w.sqlUnsupported = err.Error() + " in: " + q
+	}
+	w.mu.Unlock()
+	return pgErr("0A000", err.Error(), "")
 }
 
 type simRows struct {
